@@ -225,8 +225,12 @@ struct InterObs : public Observer {
     // which is not the head chosen by the call-graph WTO: the call that closes the cycle is
     // replaced by top ("imprecise analysis of recursive call") and its calling context never
     // reaches the invariants of that function
+    // The recorded remainder of that finding (known_findings.json): with precise recursion, the
+    // invariants of an inner function computed while the outer fixpoint is still at bottom are
+    // kept and its summary is reused: the symptom is a BOTTOM invariant (M1) at a reached point.
+    // Any other failed relation in such a function keeps a tag of its own and is reported.
     if (on_mutual_cycle[fi])
-      return KIND + "_mutualrec_context_lost";
+      return KIND + ((precise_rec && mkind(r) == "M1") ? "_mutualrec_context_lost" : "_mutualrec_other_" + mkind(r));
     return "";
   }
   // classifier tag: the program-level hazard class if there is one (a wrong callee entry or
@@ -237,7 +241,7 @@ struct InterObs : public Observer {
       if (!b.empty())
         return b;
     }
-    if (!feat.empty())
+    if (!feat.empty() && R().is_known(KIND + feat)) // (repaired defect: the classifier only wins while its tag is switched on)
       return KIND + feat;
     // known findings (domain level, flat_boolean_numerical_domain; not specific to the
     // inter-procedural analyzers but exposed by them):
@@ -250,7 +254,7 @@ struct InterObs : public Observer {
     //      td_flatbool_hidden_tables_assign_bool_cst; not root-caused here).
     // Hidden tables are only visible to the point meet (M4) until an assume/assert on the
     // boolean materialises them; with a boolean lhs at a call (a) changes visible values too.
-    if ((DOM_CAPS & CAP_BOOL) && (mkind(r) == "M4" || bool_lhs_call))
+    if ((DOM_CAPS & CAP_BOOL) && (mkind(r) == "M4" || bool_lhs_call) && R().is_known(KIND + "_flatbool_hidden_tables"))
       return KIND + "_flatbool_hidden_tables";
     // known finding: when the bound on calling contexts is exceeded the two oldest (pre,post)
     // pairs are joined component-wise; the joined pair (pre1|pre2, post1|post2) says nothing
@@ -262,13 +266,13 @@ struct InterObs : public Observer {
   }
   std::string c02_tag(const std::string &what, int64_t id) {
     auto it = assert_fn.find(id);
-    if (it != assert_fn.end() && precise_rec && on_cycle[it->second])
+    if (it != assert_fn.end() && precise_rec && on_cycle[it->second] && R().is_known(KIND + "_recfun_without_invariants"))
       return KIND + "_recfun_without_invariants"; // the unchecked calling context carries no verdict
     if (it != assert_fn.end() && on_mutual_cycle[it->second])
-      return KIND + "_mutualrec_context_lost";
-    if (!feat.empty())
+      return KIND + (precise_rec ? "_mutualrec_context_lost" : "_mutualrec_verdict_" + what);
+    if (!feat.empty() && R().is_known(KIND + feat)) // (repaired defect: the classifier only wins while its tag is switched on)
       return KIND + feat;
-    if ((DOM_CAPS & CAP_BOOL) && bool_lhs_call)
+    if ((DOM_CAPS & CAP_BOOL) && bool_lhs_call && R().is_known(KIND + "_flatbool_hidden_tables"))
       return KIND + "_flatbool_hidden_tables";
     return KIND + "_" + what;
   }
